@@ -507,3 +507,35 @@ def run_inv_monitored(p: Project, clause: str, floor: int) -> RuleResult:
                     fi, n = regs[0]
                     rr.add(finding("INV-MON", fi, n, f"callback registered with {reg}() on self.{a} does not reach _invalidate() on every path", construct=f"self.{a}.{reg}({norm(n.args[0], 60)})"))
     return rr
+
+
+def run_inv_bypass(p: Project, clause: str, floor: int) -> RuleResult:
+    """(d) A class that overrides _invalidate (to reset a layout memo) must never invalidate itself through a
+    *base* _invalidate (super()._invalidate(), super(C, self)._invalidate(), Base._invalidate(self)) outside that
+    override: the canvas cache is emptied but the memo keyed by size survives, so the next render reuses the
+    layout computed for the old state."""
+    rr = RuleResult("INV-BYPASS", clause, "classes with an _invalidate override never call a base class's _invalidate directly outside the override", floor)
+    for C in widget_classes(p):
+        ov = C.methods.get("_invalidate")
+        if ov is None or C.name == "Widget":
+            continue
+        n_calls = 0
+        for fi in p.functions.values():
+            # functions (incl. lambdas / nested defs) lexically inside class C
+            root = fi
+            while root.parent is not None:
+                root = root.parent
+            if root.cls is not C and fi.cls is not C:
+                continue
+            if fi is ov:
+                continue
+            for n in fi.own_nodes():
+                if not (isinstance(n, ast.Call) and isinstance(n.func, ast.Attribute) and n.func.attr == "_invalidate"):
+                    continue
+                v = n.func.value
+                n_calls += 1
+                base_call = (isinstance(v, ast.Call) and isinstance(v.func, ast.Name) and v.func.id == "super") or (isinstance(v, ast.Name) and v.id[:1].isupper() and v.id != C.name)
+                if base_call:
+                    rr.add(finding("INV-BYPASS", fi, n, f"`{norm(n, 60)}` invalidates {C.name} through a base class, bypassing {C.name}._invalidate() which resets the layout memo: the widths / layout computed for the old state are reused by the next render at the same size", construct=f"base _invalidate called in {C.name}: {norm(n, 60)}"))
+        rr.inst(f"{short(ov)}", True, {"class": C.name, "invalidate_calls_checked": n_calls} if len(rr.samples) < 6 else None)
+    return rr
